@@ -5094,7 +5094,8 @@ def ref_apply(ex, st, ref, op, paths, data, opts=None):
             n = ref_find(ex, st, ref, cur.chars)
             if n is None:
                 pm = dmode if dmode is not None else (node["mode"] if node["kind"] == "d" else spar["mode"])
-                made.append(dict(key=list(cur.chars), kind="d", content=None, mode=tbits(pm, 0o40000), uid=BV(32, False, 1000), gid=BV(32, False, 1000), newdir=True))
+                made.append(dict(key=list(cur.chars), kind="d", content=None, mode=tbits(pm, 0o40000), uid=BV(32, False, 1000), gid=BV(32, False, 1000), newdir=True,
+                                 mode_selected=dmode is not None))
                 ref["mode_matters"] = ref.get("mode_matters") or dmode is not None
             elif n["kind"] != "d":
                 return ("err", None)
@@ -5189,7 +5190,12 @@ def ref_matches(ex, st, ref, snap):
                 return B(False)
             continue
         conj += [e["dir"] if n["kind"] == "d" else b_not(e["dir"]), e["file"] if n["kind"] == "f" else b_not(e["file"]), b_not(e["link"]),
-                 bv_bin("Eq", e["mode"], n["mode"]), bv_bin("Eq", e["uid"], n["uid"]), bv_bin("Eq", e["gid"], n["gid"])]
+                 bv_bin("Eq", e["uid"], n["uid"]), bv_bin("Eq", e["gid"], n["gid"])]
+        if n.get("newdir") and not n.get("mode_selected"):
+            # a directory created on the way to a copy destination: only its permission bits are unspecified by the documentation
+            conj.append(bv_bin("Eq", bv_bin("BitAnd", e["mode"], BV(32, False, 0o170000)), BV(32, False, 0o40000)))
+        else:
+            conj.append(bv_bin("Eq", e["mode"], n["mode"]))
         if n["kind"] == "d":
             if find_key(ex, st, snap["files"], n["key"]) is not None:
                 return B(False)
